@@ -118,8 +118,9 @@ Section Identity.
   Variable H : hooks.
   Variable gk : guard_kind.
   Variable strict : bool.
+  Variable cstrict : bool.
 
-  Notation decide := (decide_merge_with_diff O cfg St H gk strict).
+  Notation decide := (decide_merge_with_diff O cfg St H gk strict cstrict).
 
   Lemma chunks_id n : make_merge_chunks_with gk (S n) [] [] = Ok [(0, S n, [], [])].
   Proof.
@@ -130,14 +131,14 @@ Section Identity.
   Qed.
 
   Lemma merge_lists_id M rec l p :
-    l <> [] -> merge_lists O cfg St H gk strict M rec l p [] [] = Ok [].
+    l <> [] -> merge_lists O cfg St H gk strict cstrict M rec l p [] [] = Ok [].
   Proof.
     intros Hl. destruct l as [|x l]; [congruence|].
     unfold merge_lists. cbn [length]. rewrite chunks_id. cbn.
     apply resolve_conflicted_list_no_conf. constructor.
   Qed.
 
-  Lemma merge_dicts_id M rec kv p : merge_dicts St H strict M rec kv p [] [] = Ok [].
+  Lemma merge_dicts_id M rec kv p : merge_dicts St H strict cstrict M rec kv p [] [] = Ok [].
   Proof.
     unfold merge_dicts. cbn. apply resolve_conflicted_dict_no_conf. constructor.
   Qed.
@@ -183,12 +184,12 @@ Section Identity.
 End Identity.
 
 (* the empty list (and the empty string) at the root: the sanity asserts of make_merge_chunks fire *)
-Theorem decide_id_refuted O cfg St H strict :
-  decide_merge_with_diff O cfg St H GuardListTruthy strict (JArr []) [] [] = Err AssertionError.
+Theorem decide_id_refuted O cfg St H strict cstrict :
+  decide_merge_with_diff O cfg St H GuardListTruthy strict cstrict (JArr []) [] [] = Err AssertionError.
 Proof. reflexivity. Qed.
 
-Theorem decide_id_empty_fixed O cfg St H strict :
-  decide_merge_with_diff O cfg St H GuardAnyDiff strict (JArr []) [] [] = Ok [].
+Theorem decide_id_empty_fixed O cfg St H strict cstrict :
+  decide_merge_with_diff O cfg St H GuardAnyDiff strict cstrict (JArr []) [] [] = Ok [].
 Proof.
   unfold decide_merge_with_diff, mfuel. cbn [merge Nat.add depth fold_right].
   unfold merge_lists. cbn [length]. unfold make_merge_chunks_with. cbn.
@@ -196,8 +197,661 @@ Proof.
   rewrite resolve_strategy_generic_no_conf by constructor. reflexivity.
 Qed.
 
+
+(* ---------- folding a res-valued step that keeps an invariant ---------- *)
+Lemma fold_left_res_inv {A X} (P : A -> Prop) (f : A -> X -> res A) (l : list X) :
+  (forall a x a', P a -> f a x = Ok a' -> P a') ->
+  forall init r, (forall a, init = Ok a -> P a) ->
+  fold_left (fun acc x => bind acc (fun a => f a x)) l init = Ok r -> P r.
+Proof.
+  intros Hstep. induction l as [|x l IH]; intros init r Hinit E; simpl in E.
+  - apply Hinit. exact E.
+  - eapply IH; [|exact E]. intros a Ha. destruct init as [a0|e]; simpl in Ha; [|discriminate].
+    eapply Hstep; [apply Hinit; reflexivity | exact Ha].
+Qed.
+
+Definition c_d0 (c : chunk) : diff := snd (fst c).
+Definition c_d1 (c : chunk) : diff := snd c.
+
+Lemma take_key_nil j : take_key [] j = ([], []).
+Proof. reflexivity. Qed.
+
+Lemma make_chunks_right_nil bs : forall d0, Forall (fun c => c_d1 c = []) (make_chunks bs d0 []).
+Proof.
+  induction bs as [|j r IH]; intros d0; simpl; [constructor|].
+  destruct (take_key d0 j) as [s0 d0'].
+  destruct (_ || _ || _); [constructor; [reflexivity|]|]; apply IH.
+Qed.
+
+Lemma make_chunks_left_nil bs : forall d1, Forall (fun c => c_d0 c = []) (make_chunks bs [] d1).
+Proof.
+  induction bs as [|j r IH]; intros d1; simpl; [constructor|].
+  destruct (take_key d1 j) as [s1 d1'].
+  destruct (_ || _ || _); [constructor; [reflexivity|]|]; apply IH.
+Qed.
+
+Lemma make_chunks_same bs : forall d, Forall (fun c => c_d0 c = c_d1 c) (make_chunks bs d d).
+Proof.
+  induction bs as [|j r IH]; intros d; simpl; [constructor|].
+  destruct (take_key d j) as [s0 d'].
+  destruct (_ || _ || _); [constructor; [reflexivity|]|]; apply IH.
+Qed.
+
+(* every Ok result of make_merge_chunks is make_chunks of the split diffs *)
+Lemma mmc_shape gk n d0 d1 chunks :
+  make_merge_chunks_with gk n d0 d1 = Ok chunks ->
+  exists bs s0 s1, split_diffs_on_boundaries d0 bs = Ok s0 /\ split_diffs_on_boundaries d1 bs = Ok s1
+                   /\ chunks = make_chunks bs s0 s1.
+Proof.
+  unfold make_merge_chunks_with. intros E.
+  destruct (get_section_boundaries d0 _) as [b0|]; [cbn [bind] in E|discriminate].
+  destruct (get_section_boundaries d1 b0) as [bs|]; [cbn [bind] in E|discriminate].
+  destruct (split_diffs_on_boundaries d0 bs) as [s0|] eqn:E0; [cbn [bind] in E|discriminate].
+  destruct (split_diffs_on_boundaries d1 bs) as [s1|] eqn:E1; [cbn [bind] in E|discriminate].
+  exists bs, s0, s1. repeat split; auto.
+  destruct (_ || _) in E.
+  - destruct (make_chunks bs s0 s1) as [|[[[j0 k0] a0] a1] rest] eqn:EC; [discriminate|].
+    destruct (negb _) in E; [discriminate|].
+    destruct (last _ _) as [[[x kn] y] z]. destruct (Nat.eqb kn n) in E; [|discriminate].
+    inversion E. reflexivity.
+  - inversion E. reflexivity.
+Qed.
+
+Section NoConflict.
+  Variable O : oracles.
+  Variable cfg : config.
+  Variable St : strat.
+  Variable H : hooks.
+  Variable gk : guard_kind.
+  Variable strict : bool.
+  Variable cstrict : bool.
+
+  Lemma merge_chunk_right_nil M rec base p B j k d0 B' :
+    no_conf B -> merge_chunk O cfg St H strict cstrict M rec base p B (j, k, d0, []) = Ok B' -> no_conf B'.
+  Proof.
+    intros HB. unfold merge_chunk.
+    destruct (chunk_typename d0) as [la lp]. cbn [chunk_typename].
+    destruct (str_eqb _ _); [intros E; inversion E; subst; exact HB|].
+    cbn [nonempty]. rewrite andb_false_r. cbn [negb].
+    apply b_onesided_no_conf. exact HB.
+  Qed.
+
+  Lemma merge_chunk_left_nil M rec base p B j k d1 B' :
+    no_conf B -> merge_chunk O cfg St H strict cstrict M rec base p B (j, k, [], d1) = Ok B' -> no_conf B'.
+  Proof.
+    intros HB. unfold merge_chunk. cbn [chunk_typename].
+    destruct (chunk_typename d1) as [ra rp].
+    destruct (str_eqb _ _); [intros E; inversion E; subst; exact HB|].
+    cbn [nonempty andb negb].
+    apply b_onesided_no_conf. exact HB.
+  Qed.
+
+  Lemma merge_chunks_inv (P : chunk -> Prop) M rec base p :
+    (forall B c B', P c -> no_conf B -> merge_chunk O cfg St H strict cstrict M rec base p B c = Ok B' -> no_conf B') ->
+    forall cs B B', Forall P cs -> no_conf B ->
+    merge_chunks O cfg St H strict cstrict M rec base p B cs = Ok B' -> no_conf B'.
+  Proof.
+    intros Hstep. induction cs as [|c cs IH]; intros B B' Hcs HB E; simpl in E.
+    - inversion E; subst. exact HB.
+    - inversion Hcs; subst.
+      destruct (merge_chunk _ _ _ _ _ _ _ _ _ _ B c) as [B1|] eqn:E1; [cbn [bind] in E|discriminate].
+      eapply IH; [eassumption | | exact E]. eapply Hstep; eauto.
+  Qed.
+
+  Lemma split_nil bs : split_diffs_on_boundaries [] bs = Ok [].
+  Proof. reflexivity. Qed.
+
+  Lemma merge_lists_right_nil M rec base p ld B :
+    merge_lists O cfg St H gk strict cstrict M rec base p ld [] = Ok B -> no_conf B.
+  Proof.
+    unfold merge_lists. intros E.
+    destruct (make_merge_chunks_with gk _ ld []) as [chunks|] eqn:EC; [cbn [bind] in E|discriminate].
+    destruct (merge_chunks _ _ _ _ _ _ _ _ _ _ [] chunks) as [B1|] eqn:EM; [cbn [bind] in E|discriminate].
+    assert (HB1 : no_conf B1).
+    { apply mmc_shape in EC. destruct EC as (bs & s0 & s1 & _ & E1 & ->).
+      rewrite split_nil in E1. inversion E1; subst.
+      eapply (merge_chunks_inv (fun c => c_d1 c = [])); [| apply make_chunks_right_nil | constructor | exact EM].
+      intros B0 [[[j k] d0] d1] B' Hc HB0. unfold c_d1 in Hc. simpl in Hc. subst d1.
+      apply merge_chunk_right_nil. exact HB0. }
+    rewrite resolve_conflicted_list_no_conf in E by exact HB1. inversion E; subst. exact HB1.
+  Qed.
+
+  Lemma merge_lists_left_nil M rec base p rd B :
+    merge_lists O cfg St H gk strict cstrict M rec base p [] rd = Ok B -> no_conf B.
+  Proof.
+    unfold merge_lists. intros E.
+    destruct (make_merge_chunks_with gk _ [] rd) as [chunks|] eqn:EC; [cbn [bind] in E|discriminate].
+    destruct (merge_chunks _ _ _ _ _ _ _ _ _ _ [] chunks) as [B1|] eqn:EM; [cbn [bind] in E|discriminate].
+    assert (HB1 : no_conf B1).
+    { apply mmc_shape in EC. destruct EC as (bs & s0 & s1 & E0 & _ & ->).
+      rewrite split_nil in E0. inversion E0; subst.
+      eapply (merge_chunks_inv (fun c => c_d0 c = [])); [| apply make_chunks_left_nil | constructor | exact EM].
+      intros B0 [[[j k] d0] d1] B' Hc HB0. unfold c_d0 in Hc. simpl in Hc. subst d0.
+      apply merge_chunk_left_nil. exact HB0. }
+    rewrite resolve_conflicted_list_no_conf in E by exact HB1. inversion E; subst. exact HB1.
+  Qed.
+End NoConflict.
+Section NoConflict2.
+  Variable O : oracles.
+  Variable cfg : config.
+  Variable St : strat.
+  Variable H : hooks.
+  Variable gk : guard_kind.
+  Variable strict : bool.
+  Variable cstrict : bool.
+
+  Lemma merge_dicts_right_nil M rec base p ld B :
+    merge_dicts St H strict cstrict M rec base p ld [] = Ok B -> no_conf B.
+  Proof.
+    unfold merge_dicts. intros E.
+    destruct (as_dict_based_diff ld []) as [L|]; [cbn [bind] in E|discriminate].
+    cbn [as_dict_based_diff bind] in E.
+    match type of E with bind ?F _ = _ => destruct F as [B1|] eqn:E1; [cbn [bind] in E|discriminate] end.
+    assert (HB1 : no_conf B1).
+    { eapply (fold_left_res_inv no_conf) in E1; [exact E1 | | ].
+      - intros a x a' Ha. apply b_onesided_no_conf. exact Ha.
+      - intros a Ea. inversion Ea. constructor. }
+    match type of E with bind ?F _ = _ => destruct F as [B2|] eqn:E2; [cbn [bind] in E|discriminate] end.
+    assert (HB2 : no_conf B2).
+    { eapply (fold_left_res_inv no_conf (fun B kv => Ok B)) in E2; [exact E2 | | ].
+      - intros a x a' Ha Ea. inversion Ea; subst. exact Ha.
+      - intros a Ea. inversion Ea; subst. exact HB1. }
+    rewrite resolve_conflicted_dict_no_conf in E by exact HB2. inversion E; subst. exact HB2.
+  Qed.
+
+  Lemma merge_dicts_left_nil M rec base p rd B :
+    merge_dicts St H strict cstrict M rec base p [] rd = Ok B -> no_conf B.
+  Proof.
+    unfold merge_dicts. intros E. cbn [as_dict_based_diff bind] in E.
+    destruct (as_dict_based_diff rd []) as [R|]; [cbn [bind] in E|discriminate].
+    match type of E with bind ?F _ = _ => destruct F as [B1|] eqn:E1; [cbn [bind] in E|discriminate] end.
+    assert (HB1 : no_conf B1).
+    { eapply (fold_left_res_inv no_conf) in E1; [exact E1 | | ].
+      - intros a x a' Ha. apply b_onesided_no_conf. exact Ha.
+      - intros a Ea. inversion Ea. constructor. }
+    cbn [fold_left bind] in E.
+    rewrite resolve_conflicted_dict_no_conf in E by exact HB1. inversion E; subst. exact HB1.
+  Qed.
+
+  Lemma star_path_nil : star_path [] = s_slash.
+  Proof. reflexivity. Qed.
+
+  (* one-sided: only the local side changed *)
+  Theorem merge_onesided_local_no_conf n base ld B :
+    plain_string_root St base ->
+    merge O cfg St H gk strict cstrict n false base ld [] [] = Ok B -> no_conf B.
+  Proof.
+    intros Hp. destruct n as [|n]; [discriminate|]. cbn [merge].
+    destruct base; try discriminate.
+    - destruct Hp as [Hp1 Hp2]. unfold merge_strings. rewrite star_path_nil, Hp1, Hp2.
+      intros E.
+      match type of E with bind ?F _ = _ => destruct F as [B1|] eqn:E1; [cbn [bind] in E|discriminate] end.
+      apply merge_lists_right_nil in E1.
+      rewrite resolve_conflicted_strings_no_conf in E by exact E1. inversion E; subst. exact E1.
+    - apply merge_lists_right_nil.
+    - apply merge_dicts_right_nil.
+  Qed.
+
+  Theorem merge_onesided_remote_no_conf n base rd B :
+    plain_string_root St base ->
+    merge O cfg St H gk strict cstrict n false base [] rd [] = Ok B -> no_conf B.
+  Proof.
+    intros Hp. destruct n as [|n]; [discriminate|]. cbn [merge].
+    destruct base; try discriminate.
+    - destruct Hp as [Hp1 Hp2]. unfold merge_strings. rewrite star_path_nil, Hp1, Hp2.
+      intros E.
+      match type of E with bind ?F _ = _ => destruct F as [B1|] eqn:E1; [cbn [bind] in E|discriminate] end.
+      apply merge_lists_left_nil in E1.
+      rewrite resolve_conflicted_strings_no_conf in E by exact E1. inversion E; subst. exact E1.
+    - apply merge_lists_left_nil.
+    - apply merge_dicts_left_nil.
+  Qed.
+
+  Lemma decide_from_merge base ld rd decs :
+    (forall B, merge O cfg St H gk strict cstrict (mfuel base) false base ld rd [] = Ok B -> no_conf B) ->
+    decide_merge_with_diff O cfg St H gk strict cstrict base ld rd = Ok decs -> no_conf decs.
+  Proof.
+    intros HM. unfold decide_merge_with_diff. intros E.
+    destruct (merge _ _ _ _ _ _ _ _ _ _ _ _ _) as [B|]; [cbn [bind] in E|discriminate].
+    specialize (HM B eq_refl). rewrite resolve_strategy_generic_no_conf in E by exact HM.
+    inversion E; subst. apply validated_no_conf. exact HM.
+  Qed.
+
+  Theorem decide_onesided_local base ld decs :
+    plain_string_root St base ->
+    decide_merge_with_diff O cfg St H gk strict cstrict base ld [] = Ok decs -> no_conf decs.
+  Proof. intros Hp. apply decide_from_merge. intros B. apply merge_onesided_local_no_conf. exact Hp. Qed.
+
+  Theorem decide_onesided_remote base rd decs :
+    plain_string_root St base ->
+    decide_merge_with_diff O cfg St H gk strict cstrict base [] rd = Ok decs -> no_conf decs.
+  Proof. intros Hp. apply decide_from_merge. intros B. apply merge_onesided_remote_no_conf. exact Hp. Qed.
+End NoConflict2.
+(* ---------- reflexivity of the equalities used for "same modification" ---------- *)
+Lemma num_eqb_refl x : num_eqb x x = true.
+Proof.
+  destruct x as [m e]. unfold num_eqb. rewrite Z.leb_refl.
+  destruct (Z.leb 0 e); [apply Z.eqb_refl|]. rewrite Z.sub_diag. simpl. rewrite Z.mul_1_r. apply Z.eqb_refl.
+Qed.
+
+Lemma py_eqb_refl a : py_eqb a a = true.
+Proof.
+  induction a using json_ind'; try reflexivity.
+  - simpl. destruct b; reflexivity.
+  - simpl. apply Z.eqb_refl.
+  - cbn [py_eqb num_of]. destruct (Z.eqb m 0); apply num_eqb_refl.
+  - simpl. apply str_eqb_refl.
+  - cbn [py_eqb num_of]. induction H as [|x xs Hx Hxs IH]; [reflexivity|]. rewrite Hx. simpl. exact IH.
+  - cbn [py_eqb num_of]. induction H as [|[k x] xs Hx Hxs IH]; [reflexivity|].
+    simpl in Hx. rewrite str_eqb_refl, Hx. simpl. exact IH.
+Qed.
+
+Lemma list_pyeqb_refl l : list_pyeqb l l = true.
+Proof. induction l; simpl; [reflexivity|]. rewrite py_eqb_refl. exact IHl. Qed.
+
+Lemma key_eqb_refl k : key_eqb k k = true.
+Proof. destruct k; simpl; [apply Nat.eqb_refl | apply str_eqb_refl]. Qed.
+
+Lemma vlist_pyeqb_refl v : vlist_pyeqb v v = true.
+Proof. destruct v; simpl; [apply list_pyeqb_refl | apply str_eqb_refl]. Qed.
+
+Lemma vlist_eqb_refl v : vlist_eqb v v = true.
+Proof. destruct v; simpl; [apply (json_eqb_refl (JArr l)) | apply str_eqb_refl]. Qed.
+
+Fixpoint entry_pyeqb_refl (e : dentry) : entry_pyeqb e e = true.
+Proof.
+  destruct e; simpl; rewrite ?key_eqb_refl, ?py_eqb_refl, ?vlist_pyeqb_refl, ?Nat.eqb_refl; try reflexivity.
+  simpl. induction d as [|x xs IH]; [reflexivity|]. rewrite entry_pyeqb_refl. simpl. exact IH.
+Qed.
+
+Fixpoint entry_eqb_refl (e : dentry) : entry_eqb e e = true.
+Proof.
+  destruct e; simpl; rewrite ?key_eqb_refl, ?json_eqb_refl, ?vlist_eqb_refl, ?Nat.eqb_refl; try reflexivity.
+  simpl. induction d as [|x xs IH]; [reflexivity|]. rewrite entry_eqb_refl. simpl. exact IH.
+Qed.
+
+Lemma diff_pyeqb_refl d : diff_pyeqb d d = true.
+Proof. induction d; simpl; [reflexivity|]. rewrite entry_pyeqb_refl. exact IHd. Qed.
+
+Lemma diff_eqb_refl d : diff_eqb d d = true.
+Proof. induction d; simpl; [reflexivity|]. rewrite entry_eqb_refl. exact IHd. Qed.
+
+Lemma same_diff_refl strict d : same_diff strict d d = true.
+Proof. unfold same_diff. destruct strict; [apply diff_eqb_refl | apply diff_pyeqb_refl]. Qed.
+
+Lemma same_entry_refl strict e : same_entry strict e e = true.
+Proof. unfold same_entry. destruct strict; [apply entry_eqb_refl | apply entry_pyeqb_refl]. Qed.
+
+Lemma opk_eqb_refl o : opk_eqb o o = true.
+Proof. destruct o; reflexivity. Qed.
+
+(* ---------- the dict-based diff is a function of the key ---------- *)
+Definition all_gt (k : pystr) (l : list (pystr * dentry)) : Prop := Forall (fun kv => str_ltb k (fst kv) = true) l.
+
+Fixpoint dsorted (l : list (pystr * dentry)) : Prop :=
+  match l with
+  | [] => True
+  | (k, _) :: r => all_gt k r /\ dsorted r
+  end.
+
+Lemma dict_get_not_gt k l : all_gt k l -> dict_get k l = None.
+Proof.
+  induction 1 as [|[k' e'] r Hk Hr IH]; [reflexivity|]. simpl in *.
+  destruct (str_eqb k k') eqn:E; [|exact IH].
+  apply str_eqb_eq in E. subst. rewrite str_ltb_irrefl in Hk. discriminate.
+Qed.
+
+Lemma str_cmp_lt_ltb a b : str_cmp a b = Lt -> str_ltb a b = true.
+Proof. unfold str_ltb. intros ->. reflexivity. Qed.
+
+Lemma str_cmp_gt_ltb a b : str_cmp a b = Gt -> str_ltb b a = true.
+Proof. unfold str_ltb. rewrite (str_cmp_antisym a b). intros ->. reflexivity. Qed.
+
+Lemma all_gt_trans k k' l : str_ltb k k' = true -> all_gt k' l -> all_gt k l.
+Proof.
+  intros Hk Hl. unfold all_gt in *. eapply Forall_impl; [|exact Hl].
+  intros kv Hkv. eapply str_ltb_trans; eassumption.
+Qed.
+
+Lemma all_gt_dict_set k0 k e l : str_ltb k0 k = true -> all_gt k0 l -> all_gt k0 (dict_set k e l).
+Proof.
+  intros Hk. induction 1 as [|[k' e'] r Hk' Hr IH]; simpl.
+  - constructor; [exact Hk | constructor].
+  - destruct (str_cmp k k').
+    + constructor; [exact Hk | exact Hr].
+    + constructor; [exact Hk | constructor; [exact Hk' | exact Hr]].
+    + constructor; [exact Hk' | exact IH].
+Qed.
+
+Lemma dict_set_sorted k e l : dsorted l -> dsorted (dict_set k e l).
+Proof.
+  induction l as [|[k' e'] r IH]; intros Hs; [simpl; split; [constructor | exact I]|].
+  simpl in Hs. destruct Hs as [H1 H2]. simpl. destruct (str_cmp k k') eqn:C.
+  - apply str_cmp_eq in C. subst. simpl. split; assumption.
+  - simpl. split; [|split; assumption].
+    constructor; [apply str_cmp_lt_ltb; exact C|].
+    eapply all_gt_trans; [apply str_cmp_lt_ltb; exact C | exact H1].
+  - simpl. split; [|apply IH; exact H2].
+    apply all_gt_dict_set; [apply str_cmp_gt_ltb; exact C | exact H1].
+Qed.
+
+Lemma as_dict_sorted d : forall acc L, dsorted acc -> as_dict_based_diff d acc = Ok L -> dsorted L.
+Proof.
+  induction d as [|e r IH]; intros acc L Hs E; simpl in E.
+  - inversion E; subst. exact Hs.
+  - destruct (dkey e); [discriminate|]. eapply IH; [|exact E]. apply dict_set_sorted. exact Hs.
+Qed.
+
+Lemma sorted_lookup l : dsorted l -> Forall (fun kv => dict_get (fst kv) l = Some (snd kv)) l.
+Proof.
+  induction l as [|[k e] r IH]; intros Hs; [constructor|].
+  simpl in Hs. destruct Hs as [Hgt Hr].
+  constructor.
+  - simpl. rewrite str_eqb_refl. reflexivity.
+  - specialize (IH Hr). rewrite Forall_forall in *. intros [k2 e2] Hin. simpl.
+    destruct (str_eqb k2 k) eqn:E.
+    + apply str_eqb_eq in E. subst. unfold all_gt in Hgt. rewrite Forall_forall in Hgt.
+      specialize (Hgt _ Hin). simpl in Hgt. rewrite str_ltb_irrefl in Hgt. discriminate.
+    + apply (IH _ Hin).
+Qed.
+
+Lemma fold_left_res_inv_in {A X} (P : A -> Prop) (f : A -> X -> res A) (l : list X) :
+  (forall a x a', In x l -> P a -> f a x = Ok a' -> P a') ->
+  forall init r, (forall a, init = Ok a -> P a) ->
+  fold_left (fun acc x => bind acc (fun a => f a x)) l init = Ok r -> P r.
+Proof.
+  induction l as [|x l IH]; intros Hstep init r Hinit E; simpl in E.
+  - apply Hinit. exact E.
+  - eapply IH; [| |exact E].
+    + intros a y a' Hin. apply Hstep. right. exact Hin.
+    + intros a Ha. destruct init as [a0|e]; simpl in Ha; [|discriminate].
+      eapply Hstep; [left; reflexivity | apply Hinit; reflexivity | exact Ha].
+Qed.
+
+Section Agreement.
+  Variable O : oracles.
+  Variable cfg : config.
+  Variable St : strat.
+  Variable H : hooks.
+  Variable gk : guard_kind.
+  Variable strict : bool.
+  Variable cstrict : bool.
+
+  Lemma merge_chunk_same M rec base p B j k d B' :
+    no_conf B -> merge_chunk O cfg St H strict cstrict M rec base p B (j, k, d, d) = Ok B' -> no_conf B'.
+  Proof.
+    intros HB. unfold merge_chunk.
+    destruct (chunk_typename d) as [la lp].
+    destruct (str_eqb _ _); [intros E; inversion E; subst; exact HB|].
+    destruct (negb _); [apply b_onesided_no_conf; exact HB|].
+    rewrite same_diff_refl. apply b_agreement_no_conf. exact HB.
+  Qed.
+
+  Lemma merge_lists_same M rec base p d B :
+    merge_lists O cfg St H gk strict cstrict M rec base p d d = Ok B -> no_conf B.
+  Proof.
+    unfold merge_lists. intros E.
+    destruct (make_merge_chunks_with gk _ d d) as [chunks|] eqn:EC; [cbn [bind] in E|discriminate].
+    destruct (merge_chunks _ _ _ _ _ _ _ _ _ _ [] chunks) as [B1|] eqn:EM; [cbn [bind] in E|discriminate].
+    assert (HB1 : no_conf B1).
+    { apply mmc_shape in EC. destruct EC as (bs & s0 & s1 & E0 & E1 & ->).
+      rewrite E0 in E1. inversion E1; subst.
+      eapply (merge_chunks_inv O cfg St H strict cstrict (fun c => c_d0 c = c_d1 c)); [| apply make_chunks_same | constructor | exact EM].
+      intros B0 [[[j k] d0] d1] B' Hc HB0. unfold c_d0, c_d1 in Hc. simpl in Hc. subst d1.
+      apply merge_chunk_same. exact HB0. }
+    rewrite resolve_conflicted_list_no_conf in E by exact HB1. inversion E; subst. exact HB1.
+  Qed.
+
+  Lemma merge_key_same M rec base p B key e B' :
+    no_conf B -> merge_key St strict cstrict M rec base p B key e e = Ok B' -> no_conf B'.
+  Proof.
+    intros HB. unfold merge_key.
+    destruct (is_remove e) eqn:Er; cbn [orb andb].
+    - apply b_agreement_no_conf. exact HB.
+    - rewrite opk_eqb_refl. cbn [negb]. rewrite same_entry_refl. apply b_agreement_no_conf. exact HB.
+  Qed.
+
+  Lemma merge_dicts_same M rec base p d B :
+    merge_dicts St H strict cstrict M rec base p d d = Ok B -> no_conf B.
+  Proof.
+    unfold merge_dicts. intros E.
+    destruct (as_dict_based_diff d []) as [L|] eqn:EL; [cbn [bind] in E|discriminate].
+    match type of E with bind ?F _ = _ => destruct F as [B1|] eqn:E1; [cbn [bind] in E|discriminate] end.
+    assert (HB1 : no_conf B1).
+    { eapply (fold_left_res_inv no_conf) in E1; [exact E1 | | ].
+      - intros a x a' Ha. apply b_onesided_no_conf. exact Ha.
+      - intros a Ea. inversion Ea. constructor. }
+    match type of E with bind ?F _ = _ => destruct F as [B2|] eqn:E2; [cbn [bind] in E|discriminate] end.
+    assert (HB2 : no_conf B2).
+    { pose proof (sorted_lookup L (as_dict_sorted d [] L I EL)) as HL.
+      rewrite Forall_forall in HL.
+      eapply (fold_left_res_inv_in no_conf) in E2; [exact E2 | | ].
+      - intros a [k e] a' Hin Ha. rewrite (HL _ Hin). simpl. apply merge_key_same. exact Ha.
+      - intros a Ea. inversion Ea; subst. exact HB1. }
+    rewrite resolve_conflicted_dict_no_conf in E by exact HB2. inversion E; subst. exact HB2.
+  Qed.
+
+  Theorem merge_agree_no_conf n base d B :
+    plain_string_root St base ->
+    merge O cfg St H gk strict cstrict n false base d d [] = Ok B -> no_conf B.
+  Proof.
+    intros Hp. destruct n as [|n]; [discriminate|]. cbn [merge].
+    destruct base; try discriminate.
+    - destruct Hp as [Hp1 Hp2]. unfold merge_strings. rewrite star_path_nil, Hp1, Hp2.
+      intros E.
+      match type of E with bind ?F _ = _ => destruct F as [B1|] eqn:E1; [cbn [bind] in E|discriminate] end.
+      apply merge_lists_same in E1.
+      rewrite resolve_conflicted_strings_no_conf in E by exact E1. inversion E; subst. exact E1.
+    - apply merge_lists_same.
+    - apply merge_dicts_same.
+  Qed.
+
+  Theorem decide_agree base d decs :
+    plain_string_root St base ->
+    decide_merge_with_diff O cfg St H gk strict cstrict base d d = Ok decs -> no_conf decs.
+  Proof. intros Hp. apply decide_from_merge. intros B. apply merge_agree_no_conf. exact Hp. Qed.
+End Agreement.
+(* ---------- C06: changes that do not meet ---------- *)
+Lemma dict_get_set k k' e l :
+  dict_get k (dict_set k' e l) = if str_eqb k k' then Some e else dict_get k l.
+Proof.
+  induction l as [|[k0 e0] r IH]; simpl.
+  - reflexivity.
+  - destruct (str_cmp k' k0) eqn:C; simpl.
+    + apply str_cmp_eq in C. subst k0. destruct (str_eqb k k'); reflexivity.
+    + reflexivity.
+    + rewrite IH. destruct (str_eqb k k0) eqn:E0; [|reflexivity].
+      destruct (str_eqb k k') eqn:E1; [|reflexivity].
+      apply str_eqb_eq in E0, E1. subst. assert (X : str_cmp k0 k0 = Eq) by (apply str_cmp_eq; reflexivity).
+      rewrite X in C. discriminate.
+Qed.
+
+Lemma in_dict_set kv k e l : In kv (dict_set k e l) -> kv = (k, e) \/ In kv l.
+Proof.
+  induction l as [|[k0 e0] r IH]; simpl.
+  - intros [<-|[]]. left. reflexivity.
+  - destruct (str_cmp k k0); simpl.
+    + intros [<-|Hin]; [left; reflexivity | right; right; exact Hin].
+    + intros [<-|Hin]; [left; reflexivity | right; exact Hin].
+    + intros [<-|Hin]; [right; left; reflexivity|]. destruct (IH Hin) as [->|Hr]; [left; reflexivity | right; right; exact Hr].
+Qed.
+
+Lemma as_dict_members d : forall acc L, as_dict_based_diff d acc = Ok L ->
+  forall k e, In (k, e) L -> In (k, e) acc \/ (In e d /\ dkey e = KS k).
+Proof.
+  induction d as [|x r IH]; intros acc L E k e Hin; simpl in E.
+  - inversion E; subst. left. exact Hin.
+  - destruct (dkey x) as [|kx] eqn:Ex; [discriminate|].
+    destruct (IH _ _ E _ _ Hin) as [Hacc|[Hr Hk]].
+    + apply in_dict_set in Hacc. destruct Hacc as [Heq|Hacc]; [|left; exact Hacc].
+      inversion Heq; subst. right. split; [left; reflexivity | exact Ex].
+    + right. split; [right; exact Hr | exact Hk].
+Qed.
+
+Lemma as_dict_absent d k : forall acc L, as_dict_based_diff d acc = Ok L ->
+  dict_get k acc = None -> (forall e, In e d -> dkey e <> KS k) -> dict_get k L = None.
+Proof.
+  induction d as [|x r IH]; intros acc L E Hacc Hno; simpl in E.
+  - inversion E; subst. exact Hacc.
+  - destruct (dkey x) as [|kx] eqn:Ex; [discriminate|].
+    eapply IH; [exact E | | intros e He; apply Hno; right; exact He].
+    rewrite dict_get_set. destruct (str_eqb k kx) eqn:Ek; [|exact Hacc].
+    apply str_eqb_eq in Ek. subst. exfalso. apply (Hno x); [left; reflexivity | exact Ex].
+Qed.
+
+(* "no chunk receives entries from both sides" / "changes under different keys" *)
+Definition separated (gk : guard_kind) (base : json) (dl dr : diff) : Prop :=
+  match base with
+  | JObj _ => forall e1 e2, In e1 dl -> In e2 dr -> dkey e1 <> dkey e2
+  | JArr l => forall chunks, make_merge_chunks_with gk (length l) dl dr = Ok chunks ->
+                             Forall (fun c => c_d0 c = [] \/ c_d1 c = []) chunks
+  | JStr s => forall chunks, make_merge_chunks_with gk (length (splitlines s)) dl dr = Ok chunks ->
+                             Forall (fun c => c_d0 c = [] \/ c_d1 c = []) chunks
+  | _ => True
+  end.
+
+Section Separated.
+  Variable O : oracles.
+  Variable cfg : config.
+  Variable St : strat.
+  Variable H : hooks.
+  Variable gk : guard_kind.
+  Variable strict : bool.
+  Variable cstrict : bool.
+
+  Lemma merge_lists_separated M rec base p dl dr B :
+    (forall chunks, make_merge_chunks_with gk (length base) dl dr = Ok chunks ->
+                    Forall (fun c => c_d0 c = [] \/ c_d1 c = []) chunks) ->
+    merge_lists O cfg St H gk strict cstrict M rec base p dl dr = Ok B -> no_conf B.
+  Proof.
+    intros Hsep. unfold merge_lists. intros E.
+    destruct (make_merge_chunks_with gk _ dl dr) as [chunks|] eqn:EC; [cbn [bind] in E|discriminate].
+    destruct (merge_chunks _ _ _ _ _ _ _ _ _ _ [] chunks) as [B1|] eqn:EM; [cbn [bind] in E|discriminate].
+    assert (HB1 : no_conf B1).
+    { eapply (merge_chunks_inv O cfg St H strict cstrict (fun c => c_d0 c = [] \/ c_d1 c = []));
+        [| apply Hsep; reflexivity | constructor | exact EM].
+      intros B0 [[[j k] d0] d1] B' Hc HB0. unfold c_d0, c_d1 in Hc. simpl in Hc.
+      destruct Hc as [->| ->]; [apply merge_chunk_left_nil | apply merge_chunk_right_nil]; exact HB0. }
+    rewrite resolve_conflicted_list_no_conf in E by exact HB1. inversion E; subst. exact HB1.
+  Qed.
+
+  Lemma merge_dicts_separated M rec base p dl dr B :
+    (forall e1 e2, In e1 dl -> In e2 dr -> dkey e1 <> dkey e2) ->
+    merge_dicts St H strict cstrict M rec base p dl dr = Ok B -> no_conf B.
+  Proof.
+    intros Hsep. unfold merge_dicts. intros E.
+    destruct (as_dict_based_diff dl []) as [L|] eqn:EL; [cbn [bind] in E|discriminate].
+    destruct (as_dict_based_diff dr []) as [R|] eqn:ER; [cbn [bind] in E|discriminate].
+    match type of E with bind ?F _ = _ => destruct F as [B1|] eqn:E1; [cbn [bind] in E|discriminate] end.
+    assert (HB1 : no_conf B1).
+    { eapply (fold_left_res_inv no_conf) in E1; [exact E1 | | ].
+      - intros a x a' Ha. apply b_onesided_no_conf. exact Ha.
+      - intros a Ea. inversion Ea. constructor. }
+    match type of E with bind ?F _ = _ => destruct F as [B2|] eqn:E2; [cbn [bind] in E|discriminate] end.
+    assert (HB2 : no_conf B2).
+    { eapply (fold_left_res_inv_in no_conf) in E2; [exact E2 | | ].
+      - intros a [k e] a' Hin Ha. simpl.
+        assert (HN : dict_get k R = None).
+        { destruct (as_dict_members dl [] L EL k e Hin) as [[]|[Hd Hk]].
+          eapply as_dict_absent; [exact ER | reflexivity |].
+          intros e2 He2 Hk2. apply (Hsep e e2 Hd He2). congruence. }
+        rewrite HN. intros Ea. inversion Ea; subst. exact Ha.
+      - intros a Ea. inversion Ea; subst. exact HB1. }
+    rewrite resolve_conflicted_dict_no_conf in E by exact HB2. inversion E; subst. exact HB2.
+  Qed.
+
+  Theorem merge_separated_no_conf n base dl dr B :
+    plain_string_root St base -> separated gk base dl dr ->
+    merge O cfg St H gk strict cstrict n false base dl dr [] = Ok B -> no_conf B.
+  Proof.
+    intros Hp Hsep. destruct n as [|n]; [discriminate|]. cbn [merge].
+    destruct base; try discriminate.
+    - destruct Hp as [Hp1 Hp2]. unfold merge_strings. rewrite star_path_nil, Hp1, Hp2.
+      intros E.
+      match type of E with bind ?F _ = _ => destruct F as [B1|] eqn:E1; [cbn [bind] in E|discriminate] end.
+      apply merge_lists_separated in E1; [| rewrite map_length; exact Hsep].
+      rewrite resolve_conflicted_strings_no_conf in E by exact E1. inversion E; subst. exact E1.
+    - apply merge_lists_separated. exact Hsep.
+    - apply merge_dicts_separated. exact Hsep.
+  Qed.
+
+  Theorem decide_separated base dl dr decs :
+    plain_string_root St base -> separated gk base dl dr ->
+    decide_merge_with_diff O cfg St H gk strict cstrict base dl dr = Ok decs -> no_conf decs.
+  Proof. intros Hp Hs. apply decide_from_merge. intros B. apply merge_separated_no_conf; assumption. Qed.
+End Separated.
+
+(* ---------- non-vacuity and the symmetry counterexample ---------- *)
+Definition O0 : oracles := {| o_sim := fun _ _ => false; o_opcodes := fun _ _ => []; o_cell := fun _ _ _ => false; o_output := fun _ _ _ => false |}.
+Definition cfg0 : config := {| c_predicates := []; c_pred_default := [PStrictEq]; c_pred_keys := []; c_differs := [];
+  c_differ_default := DfDiff; c_atomic := []; c_split_mimes := []; c_generic_pred := [PStrictEq]; c_dict_strict := true; c_mime_strict := true |}.
+Definition ka : pystr := [97%N].
+
+(* the hypotheses of the one-sided / agreement / separated theorems are satisfiable with non-empty diffs *)
+Example onesided_nonvacuous :
+  exists decs, decide_merge_with_diff O0 cfg0 no_strategies no_hooks GuardListTruthy false false
+                 (JArr [JInt 1; JInt 2]) [DRemoveRange (KI 0) 1] [] = Ok decs
+               /\ decs <> [] /\ apply_decisions (JArr [JInt 1; JInt 2]) decs = Ok (JArr [JInt 2]).
+Proof. eexists. split; [vm_compute; reflexivity | split; [discriminate | vm_compute; reflexivity]]. Qed.
+
+Example agree_nonvacuous :
+  exists decs, decide_merge_with_diff O0 cfg0 no_strategies no_hooks GuardListTruthy false false
+                 (JObj [(ka, JInt 0)]) [DReplace (KS ka) (JInt 1)] [DReplace (KS ka) (JInt 1)] = Ok decs
+               /\ decs <> [] /\ apply_decisions (JObj [(ka, JInt 0)]) decs = Ok (JObj [(ka, JInt 1)]).
+Proof. eexists. split; [vm_compute; reflexivity | split; [discriminate | vm_compute; reflexivity]]. Qed.
+
+Example separated_nonvacuous :
+  separated GuardListTruthy (JArr [JInt 1; JInt 2; JInt 3]) [DRemoveRange (KI 0) 1] [DRemoveRange (KI 2) 1]
+  /\ exists decs, decide_merge_with_diff O0 cfg0 no_strategies no_hooks GuardListTruthy false false
+                 (JArr [JInt 1; JInt 2; JInt 3]) [DRemoveRange (KI 0) 1] [DRemoveRange (KI 2) 1] = Ok decs
+               /\ apply_decisions (JArr [JInt 1; JInt 2; JInt 3]) decs = Ok (JArr [JInt 2]).
+Proof.
+  split.
+  - intros chunks E. vm_compute in E. inversion E; subst.
+    repeat (apply Forall_cons; [unfold c_d0, c_d1; simpl; auto|]). apply Forall_nil.
+  - eexists. split; vm_compute; reflexivity.
+Qed.
+
+(* With Python == deciding that both sides made "the same" change (strict = false), a conflict-free
+   merge depends on which side is called local: {a:0} with a:=1 on one side and a:=true on the other. *)
+Theorem symmetry_refuted_pyeq O cfg :
+  let base := JObj [(ka, JInt 0)] in
+  let dl := [DReplace (KS ka) (JInt 1)] in
+  let dr := [DReplace (KS ka) (JBool true)] in
+  exists d1 d2 m1 m2,
+    decide_merge_with_diff O cfg no_strategies no_hooks GuardListTruthy false false base dl dr = Ok d1 /\ no_conf d1 /\
+    decide_merge_with_diff O cfg no_strategies no_hooks GuardListTruthy false false base dr dl = Ok d2 /\ no_conf d2 /\
+    apply_decisions base d1 = Ok m1 /\ apply_decisions base d2 = Ok m2 /\ m1 <> m2.
+Proof.
+  cbv zeta. do 4 eexists.
+  split; [vm_compute; reflexivity|]. split; [repeat constructor|].
+  split; [vm_compute; reflexivity|]. split; [repeat constructor|].
+  split; [vm_compute; reflexivity|]. split; [vm_compute; reflexivity|]. discriminate.
+Qed.
+
+(* with strict equality in both places (entry comparison and the conflict asserts) the same triple is a
+   conflict in both orders *)
+Theorem symmetry_example_strict O cfg :
+  let base := JObj [(ka, JInt 0)] in
+  let dl := [DReplace (KS ka) (JInt 1)] in
+  let dr := [DReplace (KS ka) (JBool true)] in
+  exists d1 d2,
+    decide_merge_with_diff O cfg no_strategies no_hooks GuardListTruthy true true base dl dr = Ok d1 /\ has_conflicted d1 = true /\
+    decide_merge_with_diff O cfg no_strategies no_hooks GuardListTruthy true true base dr dl = Ok d2 /\ has_conflicted d2 = true.
+Proof.
+  cbv zeta. do 2 eexists.
+  split; [vm_compute; reflexivity|]. split; [reflexivity|].
+  split; [vm_compute; reflexivity|]. reflexivity.
+Qed.
+
+(* strict entry comparison alone is not enough: registering the conflict then trips the Python-== assert *)
+Theorem strict_entries_need_strict_assert O cfg :
+  decide_merge_with_diff O cfg no_strategies no_hooks GuardListTruthy true false
+    (JObj [(ka, JInt 0)]) [DReplace (KS ka) (JInt 1)] [DReplace (KS ka) (JBool true)] = Err AssertionError.
+Proof. vm_compute. reflexivity. Qed.
+
 Theorem merge_id_thm : forall O cfg St H base,
   is_container base = true -> plain_string_root St base -> base <> JArr [] -> base <> JStr [] ->
-  decide_merge_with_diff O cfg St H chunks_guard entry_eq_strict base [] [] = Ok []
+  decide_merge_with_diff O cfg St H chunks_guard entry_eq_strict conflict_assert_strict base [] [] = Ok []
   /\ apply_decisions base [] = Ok base.
 Proof. intros. split; [apply decide_id; assumption | reflexivity]. Qed.
